@@ -11,7 +11,7 @@ MANIFEST = {
             'with every skip_nodes subset / insertion order on 3 nodes, against a brute-force enumeration. Every workbook of 3 mutually referring cells whose 9 edges '
             'are each absent / direct / IF-guarded (3^9 x 2 guard values = 39366) plus range, name, IFERROR- and IFS-guarded edge forms as deviations is loaded with '
             'circular handling and calculated under a watchdog; every cell, three dependents (arithmetic, IFERROR, ISERROR) and an independent chain are compared with '
-            'a lazy evaluation-stack oracle; cycle-list order, rotations, dict order and real hash seeds are permuted.' ' Later additions: the stored spellings _xlfn.IFNA / _xlfn.IFS as edge forms, IFS with the back reference in a later test (always an edge) or in the last value (lazy), cycles through ranges with bystander cells.',
+            'a lazy evaluation-stack oracle; cycle-list order, rotations, dict order and real hash seeds are permuted.' ' Later additions: the stored spellings _xlfn.IFNA / _xlfn.IFS as edge forms, IFS with the back reference in a later test (an edge when the test is read; when an earlier test holds, the circular marking and the ordinary value are both accepted) or in the last value (lazy), an eager error-absorbing reader IFERROR(X,7) on graphs without lazy branches, cycles through ranges with bystander cells.',
     'note': 'Trusted: the lazy stack oracle in this file (a cell re-entered while on the evaluation stack is on an unavoidable cycle; only selected branches are evaluated). '
             'Dependents of circular cells must be error values (which error is not fixed).',
 }
@@ -101,7 +101,7 @@ def graph_cases(tier):
 
 
 # ------------------------------------------------------------ workbooks
-# edge forms: 0 absent, 1 direct, 2 IF(G1,X,0), 3 SUM(X:X) range, 4 name, 5 IFERROR(H1,X), 6 IFS(G1,X,TRUE,0), 7 IFNA(H1,X), 8 IF(G2,X,0), 9 _xlfn.IFNA, 10 _xlfn.IFS
+# edge forms (11-13 below): 0 absent, 1 direct, 2 IF(G1,X,0), 3 SUM(X:X) range, 4 name, 5 IFERROR(H1,X), 6 IFS(G1,X,TRUE,0), 7 IFNA(H1,X), 8 IF(G2,X,0), 9 _xlfn.IFNA, 10 _xlfn.IFS
 def term(f, j):
     x = P + CELLS[j]
     if f == 1:
@@ -128,6 +128,8 @@ def term(f, j):
         return 'IFS(%sG1,1,%s>0,2,TRUE,3)' % (P, x)     # the reference sits in a LATER TEST of IFS: tests are not lazy branches (a cycle through one is unavoidable)
     if f == 12:
         return 'IFS(NOT(%sG1),1,TRUE,%s)' % (P, x)      # the reference is the value of the last pair: reached only when the first test fails... (G1 true)
+    if f == 13:
+        return 'IFERROR(%s,7)' % x                      # the reference is the FIRST argument of IFERROR: read always, errors of a cell it reads are absorbed - its own circular marking is not
     raise ValueError(f)
 
 
@@ -181,17 +183,17 @@ def calc_file(mat, g, h, g2=None):
 
 
 def active(f, g, h, g2=None):
-    return f in (1, 3, 4) or (f in (2, 6, 10, 12) and g) or (f in (5, 7, 9) and h) or (f == 8 and (g if g2 is None else g2)) or f == 11
+    return f in (1, 3, 4) or (f in (2, 6, 10, 12) and g) or (f in (5, 7, 9) and h) or (f == 8 and (g if g2 is None else g2)) or f in (11, 13)
 
 
-def oracle(mat, g, h, g2=None):
+def oracle(mat, g, h, g2=None, ifs_unread=False):
     """Guards are constants, so the set of selected (active) edges is static.
     * a cell on a cycle of selected edges is on an unavoidable cycle: #CIRC!; a cell that reaches one: an error;
     * a cell whose static cycles (selected or not) all have every lazy branch unselected must have its lazy value
       ("a cycle that closes only through such branches, none of them selected, does resolve");
     * a cell on (or reaching) a static cycle that is avoided but has SOME selected lazy branch is left open by the
       statement: the lazy value or the circular error are both accepted (returned as ('AMB', value))."""
-    act = {i: [j for j, f in enumerate(mat[i]) if f and active(f, g, h, g2)] for i in range(3)}
+    act = {i: [j for j, f in enumerate(mat[i]) if f and active(f, g, h, g2) and not (f == 11 and g and ifs_unread)] for i in range(3)}
     stat = {i: [j for j, f in enumerate(mat[i]) if f] for i in range(3)}
     lazy = lambda i, j: mat[i][j] in (2, 5, 6, 7, 8, 9, 10, 12)
 
@@ -225,29 +227,58 @@ def oracle(mat, g, h, g2=None):
         if i not in val:
             if i in circ:
                 val[i] = CIRC
-            elif R[i] & circ:
-                val[i] = 'ERR'
             else:
-                val[i] = float(i + 1 + sum(contrib(i, j) for j in range(3) if mat[i][j]))
+                cs = [contrib(i, j) for j in range(3) if mat[i][j]]
+                val[i] = float(i + 1 + sum(cs)) if all(isinstance(c, float) for c in cs) else 'ERR'
         return val[i]
 
     def contrib(i, j):
         f = mat[i][j]
         if f == 11:                       # IFS(G1,1,X>0,2,TRUE,3)
-            return 1.0 if g else (2.0 if ev(j) > 0 else 3.0)
+            if g:
+                return 1.0
+            x = ev(j)
+            return (2.0 if x > 0 else 3.0) if isinstance(x, float) else 'ERR'
         if f == 12:                       # IFS(NOT(G1),1,TRUE,X)
             return ev(j) if g else 1.0
+        if f == 13:                       # IFERROR(X,7): the error of the cell read is absorbed
+            x = ev(j)
+            return x if isinstance(x, float) else 7.0
         return ev(j) if j in act[i] else 0.0
     for i in range(3):
         ev(i)
     for i in range(3):
         if isinstance(val[i], float) and (i in amb or R[i] & amb):
             val[i] = ('AMB', val[i])
+        elif isinstance(val[i], float) and Rc[i] & circ:
+            val[i] = ('AMB', val[i])        # reads a circular cell only through a test of IFS that is never reached: a dependent, so the error may show
+    if amb and any(f == 13 for row in mat for f in row):
+        return None         # an absorbed error next to a cycle the statement leaves open: more than two admissible values, not judged
     return val
 
 
 def stable_oracle(mat, g, h, g2=None):
-    return oracle(mat, g, h, g2)
+    strict = oracle(mat, g, h, g2)
+    if not (g and any(f == 11 for row in mat for f in row)):
+        return strict
+    # A later test of IFS behind a test that holds is never read.  Whether a cycle through such a test "can be avoided" is not
+    # settled by the statement (the library cannot cut a cycle at a test, but it can cut the same cycle at a lazy branch of
+    # another cell and then never reads the test): the circular marking and the ordinary value are both accepted.
+    lenient = oracle(mat, g, h, g2, ifs_unread=True)
+    if strict is None or lenient is None or (strict != lenient and any(f == 13 for row in mat for f in row)):
+        return None
+    out = {}
+    for i in range(3):
+        a, b = strict[i], lenient[i]
+        if a == b:
+            out[i] = a
+        elif isinstance(b, float):
+            out[i] = ('AMB', b)
+        elif isinstance(b, tuple):
+            out[i] = b
+        else:
+            out[i] = 'ERR'          # judged as: the circular error or any error
+    return out
 
 
 class Hang(Exception):
@@ -452,6 +483,23 @@ def wb_cases(tier):
                     for g in (True, False):
                         for h in (True, False):
                             yield ['wb', flat, g, h, False]
+
+
+
+    # an error-absorbing eager reader (form 13) alone and next to a test of IFS, on graphs without any lazy branch
+    for bits in range(64):
+        base = [0] * 9
+        for t, k in enumerate(offdiag):
+            if bits >> t & 1:
+                base[k] = 1
+        for m, fsets in ((1, ((13,),)), (2, ((11, 13), (13, 11), (13, 13)))):
+            for pos in itertools.combinations(offdiag, m):
+                for forms in fsets:
+                    flat = list(base)
+                    for k, f in zip(pos, forms):
+                        flat[k] = f
+                    for g in (True, False):
+                        yield ['wb', flat, g, False, False]
 
 
 # ------------------------------------------------------------ real hash seeds
